@@ -33,9 +33,11 @@ RULE = (
     "counts cycle with the key index) with identity and non-contiguous partition-id lists and with every "
     "availability subset for counts <= 4, random/empty/full subsets otherwise; keyed results must not "
     "depend on the availability subset.  Unkeyed: repeated calls must return a member of `available` when "
-    "it is non-empty, else of all partitions.  Producer path: AIOKafkaProducer._partition (unbound, stub "
-    "self carrying a real ClusterMetadata filled in shuffled order with some leaderless partitions) for "
-    "keyed, unkeyed and explicit-partition records.  All randomness from random.Random(seed, shard).  "
+    "it is non-empty, else of all partitions.  Producer path: ONE real AIOKafkaProducer instance per shard (constructed, not "
+    "started) whose real ClusterMetadata is updated before every group of calls with a metadata reply listing the "
+    "topic's partitions in shuffled order, some leaderless, and with a partition count that differs from the previous "
+    "update (the topic grows and shrinks under the live producer); keyed, unkeyed and explicit-partition records go "
+    "through _partition(), and three keyed records per update through send() itself (accumulator append intercepted).  All randomness from random.Random(seed, shard).  "
     "A case is a key; non-trivial = non-empty key; distinct = distinct key bytes."
 )
 ASSUMPTIONS = [
@@ -46,7 +48,7 @@ ASSUMPTIONS = [
     "Keys are bytes (what the producer's serializer stage hands to the partitioner).",
 ]
 REQUIRED_COUNTERS = ["anchors_checked", "hash_comparisons", "keyed_partitioner_calls", "unkeyed_calls",
-                     "producer_path_calls", "availability_subsets"]
+                     "producer_path_calls", "producer_send_calls", "producer_path_partition_count_changes", "availability_subsets"]
 
 ALPHABET = (0x00, 0x7F, 0x80, 0xFF)
 
@@ -194,39 +196,90 @@ class Checker:
                 self.count("unkeyed_distinct_choices_seen", len(seen))
 
     # -- through the producer --------------------------------------------------------------
+    def _producer(self):
+        """ONE real AIOKafkaProducer instance per shard (constructed, never started: nothing touches the network); its
+        ClusterMetadata is the real one and is updated with MetadataResponse-shaped objects, so consecutive calls see the
+        topic's partition count, listing order and leaders CHANGE under a live producer, as an application would."""
+        if getattr(self, "_prod", None) is None:
+            import asyncio
+            from aiokafka.producer.producer import AIOKafkaProducer
+            self._ploop = asyncio.new_event_loop()
+
+            async def make():
+                return AIOKafkaProducer(bootstrap_servers="nowhere:9092")
+            self._prod = self._ploop.run_until_complete(make())
+            self._sent = []
+            acc = self._prod._message_accumulator
+            orig = acc.add_message
+
+            async def add_message(tp, *a, **kw):
+                self._sent.append(tp)
+                f = self._ploop.create_future()
+                f.set_result(None)
+                return f
+            acc.add_message = add_message
+            self._orig_add_message = orig
+        return self._prod
+
+    def close(self):
+        if getattr(self, "_prod", None) is not None:
+            try:
+                self._prod._closed = True          # never started: nothing to stop; silences the unclosed warning
+                self._ploop.close()
+            except Exception:  # noqa: BLE001
+                pass
+
     def check_producer_path(self, n, keys):
         rng = self.rng
-        lib = self.lib
+        prod = self._producer()
         order = list(range(n))
         rng.shuffle(order)
         leaderless = set(rng.sample(order, rng.randint(0, n))) if rng.random() < 0.8 else set()
-        md = lib.ClusterMetadata()
+        md = prod._metadata
+        before = len(md.partitions_for_topic("topic") or ())
         md.update_metadata(types.SimpleNamespace(
             API_VERSION=1, brokers=[(0, "b0", 9092, None), (1, "b1", 9092, None)], controller_id=0,
             topics=[(0, "topic", False, [(0, p, (-1 if p in leaderless else p % 2), [0, 1], [0, 1]) for p in order])]))
-        stub = types.SimpleNamespace(_metadata=md, _partitioner=lib.DefaultPartitioner())
+        if before and before != n:
+            self.count("producer_path_partition_count_changes")
         avail = set(order) - leaderless
+        wit = {"n": n, "partitions_before_this_metadata_update": before, "metadata_order": order[:50],
+               "leaderless": sorted(leaderless)[:50]}
         for key in keys:
-            got = lib.producer_partition(stub, "topic", None, key, b"v", key, b"v")
+            got = prod._partition("topic", None, key, b"v", key, b"v")
             self.count("producer_path_calls")
             want = ref.java_partition(key, n)
             if got != want:
                 self.violate("producer_partition_mismatch",
-                             f"AIOKafkaProducer._partition: key len {len(key)}, {n} partitions "
-                             f"({len(leaderless)} leaderless) -> {got}, Java client -> {want}",
-                             {"key_hex": key.hex(), "n": n, "metadata_order": order[:50], "leaderless": sorted(leaderless)[:50]})
+                             f"AIOKafkaProducer._partition: key len {len(key)}, {n} partitions (the topic had {before} before the "
+                             f"last metadata update; {len(leaderless)} leaderless) -> {got}, Java client -> {want}",
+                             dict(wit, key_hex=key.hex()))
+        # the same through send() itself (serializer -> _partition -> accumulator), a few keys
+        for key in keys[:3]:
+            del self._sent[:]
+            try:
+                self._ploop.run_until_complete(prod.send("topic", b"v", key=key))
+            except Exception as e:  # noqa: BLE001
+                self.count(f"producer_send_path_raised_{type(e).__name__}")
+                continue
+            self.count("producer_send_calls")
+            want = ref.java_partition(key, n)
+            if [tp.partition for tp in self._sent] != [want]:
+                self.violate("producer_partition_mismatch",
+                             f"AIOKafkaProducer.send(key of {len(key)} bytes) with {n} partitions (had {before} before the last "
+                             f"metadata update) appended to partitions {[tp.partition for tp in self._sent]}, Java client -> {want}",
+                             dict(wit, key_hex=key.hex(), via="send"))
         for _ in range(4):
-            got = lib.producer_partition(stub, "topic", None, None, b"v", None, b"v")
+            got = prod._partition("topic", None, None, b"v", None, b"v")
             self.count("producer_path_calls")
             self.count("producer_path_unkeyed_calls")
             if avail and got not in avail:
                 self.violate("producer_unkeyed_not_in_available",
-                             f"unkeyed record sent to leaderless partition {got} although {len(avail)} have a leader",
-                             {"n": n, "leaderless": sorted(leaderless)[:50]})
+                             f"unkeyed record sent to leaderless partition {got} although {len(avail)} have a leader", dict(wit))
             elif not avail and got not in set(order):
-                self.violate("producer_unkeyed_not_in_all", f"unkeyed record sent to {got}", {"n": n})
+                self.violate("producer_unkeyed_not_in_all", f"unkeyed record sent to {got}", dict(wit))
         p = rng.choice(order)
-        if lib.producer_partition(stub, "topic", p, b"k", b"v", b"k", b"v") != p:
+        if prod._partition("topic", p, b"k", b"v", b"k", b"v") != p:
             self.violate("producer_explicit_partition_changed", f"explicit partition {p} not honoured", {"n": n, "partition": p})
         self.count("producer_path_calls")
 
@@ -340,6 +393,7 @@ def run_shard(params):
             ck.check_producer_path(n, keys[:8])
             res["evaluations"] += len(keys)
             ck.count("partition_counts_swept")
+    ck.close()
     res["violations"] = list(ck.violations.values())
     res["nontrivial"] = ck.nontrivial
     res["samples"] = ck.samples
@@ -361,6 +415,9 @@ def replay(witness):
             if want != got:
                 ck.violate("keyed_partition_mismatch", f"{got} != Java {want} over {n}", dict(witness))
             if "metadata_order" in witness:
+                b = witness.get("partitions_before_this_metadata_update")
+                if b and b != n:
+                    ck.check_producer_path(b, [key])       # the topic had another partition count first
                 ck.check_producer_path(n, [key])
     elif "n" in witness:
         ck.check_unkeyed(witness["n"])
